@@ -456,7 +456,8 @@ def impl_selection(ctx):
         for _ in range(r.randint(3, 6)):
             hdr = (t_gen(r, 2, ["T", "U"], ["'a", "'static"]), t_gen(r, 2, ["T", "U"], ["'a", "'static"]))
             impls.append(hdr)
-        text = PRELUDE + " ".join("impl<'a, T, U> Foo<%s> for %s {}" % (t_text(p), t_text(s)) for s, p in impls)
+        # impls of other crates (`#[upstream]`) are candidates like local ones
+        text = PRELUDE + " ".join("%simpl<'a, T, U> Foo<%s> for %s {}" % ("#[upstream] " if r.random() < 0.3 else "", t_text(p), t_text(s)) for s, p in impls)
         goals = []
         for _ in range(6):
             s, p = r.choice(impls)
